@@ -14,6 +14,7 @@ Binding: recorder c09 hands falcon's fixed_point_{forward,backward}[_options] a 
          or a (post-)solution; a hang / panic never.
 """
 import json
+import os
 import re
 
 from vlib import core
@@ -30,7 +31,8 @@ def mc(ctx):
     else:
         ctx.tlc_mc("MC_FixedPoint", "MC_FixedPoint_gk3.cfg", key="MC_FixedPoint 1-bit gen/kill, all graphs on 3 locations")
         ctx.tlc_mc("MC_FixedPoint", "MC_FixedPoint_flat2.cfg", key="MC_FixedPoint flat2 all monotone tables, graphs<=2")
-        ctx.tlc_mc("MC_FixedPoint", "MC_FixedPoint_flat3s.cfg", key="MC_FixedPoint flat2 sample family, all graphs on 3 locations")
+        if os.environ.get("VERIF_C09_DEEP"):     # 444 k states, several minutes: optional
+            ctx.tlc_mc("MC_FixedPoint", "MC_FixedPoint_flat3s.cfg", key="MC_FixedPoint flat2 sample family, all graphs on 3 locations")
         ctx.tlc_mc("MC_FixedPoint", "MC_FixedPoint_any2.cfg", key="MC_FixedPoint chain3 ALL tables (non-monotone), graphs<=2, force both")
 
 
